@@ -19,6 +19,7 @@ CONSTANTS
   MaxClk = 0
   OldPopOrder = FALSE
   OldTimeCharge = FALSE
+  OldThrInherit = FALSE
   NCo = 0
   XFlags = {"iosafe"}
   MaxDepth = 3
